@@ -3,6 +3,7 @@ package main
 import (
 	"fmt"
 	"math/big"
+	"strings"
 )
 
 func init() {
@@ -312,6 +313,9 @@ func c19Histories(c *Ctx) {
 			}
 			k := &bc.kept[r.Intn(len(bc.kept))]
 			col, v := genCol(r, bc.is64), genVal(r, -1000, 1<<40)
+			if strings.HasPrefix(k.from, "copy-by-") {
+				v = genVal(r, bc.lo, bc.hi) // a copy has the range of the index it was copied from
+			}
 			if cs := k.m.cols(); len(cs) > 0 && r.Chance(0.6) {
 				col = cs[r.Intn(len(cs))]
 			}
@@ -446,9 +450,17 @@ func c19Copies(c *Ctx, bc *bsiCase) {
 		// the copy must be independent: mutate it, the original must not change
 		if len(want) > 0 {
 			col := want.cols()[0]
-			o.setValue(col, genVal(r, bc.lo, bc.hi))
+			nv := genVal(r, bc.lo, bc.hi)
+			o.setValue(col, nv)
 			if !checkBSI(c, x, bc.m, sig+"/original-changed-by-copy", nil) {
 				return
+			}
+			// the copy stays alive with its own model: later updates of the original must not reach it, and it may be
+			// updated itself (TouchOperand)
+			if c.Prop == "C19" && (k.name == "Clone" || k.name == "NewBSIRetainSet") && r.Chance(0.5) {
+				cm := want.clone()
+				cm[col] = big.NewInt(nv)
+				bc.kept = append(bc.kept, bsiKept{o, cm, "copy-by-" + k.name})
 			}
 		}
 		c.Eval(2)
